@@ -47,36 +47,52 @@ def run(idx: Index, rep: Report, tier: str) -> None:
             ok = "expand_effect()" in hit[1] and "effects" in hit[1]
         rep.check(ok, rule1, f"the read set contains the fluents {why}", f.loc(hit[0].ast) if hit else f.loc(), construct=".".join(hit[1]) if hit else f"nothing derived from .{key} is added to {read_set}", detail="" if ok else f"two instances where one writes a fluent that {why.split()[0]} {why.split()[1]} of the other are left unordered", function=f.qualname)
     ee = [c for _, c in cfg_nodes_with_call(cfg, "expand_effect")]
-    ok = len(ee) >= 2 and all(c.args and norm(c.args[0]) == "problem" for c in ee)
-    rep.check(ok, rule1, "effects are expanded over the problem's objects in both the read and the write pass", f.loc(ee[0]) if ee else f.loc(), construct=f"{len(ee)} expand_effect(problem) sites", detail="" if ok else "forall effects are not expanded: the fluents they touch are missing from the read/write sets", function=f.qualname)
+    params = set(f.params()) - {"self"}
+    ok = len(ee) >= 2 and all(c.args and isinstance(c.args[0], ast.Name) and c.args[0].id in params for c in ee)
+    rep.check(ok, rule1, "effects are expanded over the problem's objects in both the read and the write pass", f.loc(ee[0]) if ee else f.loc(), construct=f"{len(ee)} expand_effect(<problem parameter>) sites", detail="" if ok else "forall effects are not expanded: the fluents they touch are missing from the read/write sets", function=f.qualname)
     rq = [c for _, c in cfg_nodes_with_call(cfg, "remove_quantifiers")]
     rep.check(len(rq) >= 4, rule1, "quantifiers are removed before free fluents are extracted", f.loc(rq[0]) if rq else f.loc(), construct=f"{len(rq)} remove_quantifiers sites", function=f.qualname)
-    adds = [(n, c) for n, c in cfg_nodes_with_call(cfg, "add") if norm(c.func.value) == "required_fluents"]
-    ok = bool(adds) and all("substitute" in norm(c.args[0]) and "assignments" in norm(c.args[0]) for _, c in adds)
-    rep.check(ok, rule1, "read fluents are grounded with the instance's actual parameters", f.loc(adds[0][1]) if adds else f.loc(), construct=norm(adds[0][1])[:100] if adds else "", function=f.qualname)
-    asg = [a for a in walk_no_nested(f.node) if isinstance(a, (ast.Assign, ast.AnnAssign)) and norm(a.targets[0] if isinstance(a, ast.Assign) else a.target) == "assignments"]
-    ok = bool(asg) and "parameters" in norm(asg[0].value) and "actual_parameters" in norm(asg[0].value)
-    rep.check(ok, rule1, "the grounding map pairs formal with actual parameters", f.loc(asg[0]) if asg else f.loc(), construct=norm(asg[0].value) if asg else "", function=f.qualname)
+    # the grounding map: built from the formal and the actual parameters of the instance
+    maps = [a for a in walk_no_nested(f.node) if isinstance(a, (ast.Assign, ast.AnnAssign)) and a.value is not None and any(isinstance(x, ast.Attribute) and x.attr == "actual_parameters" for x in ast.walk(a.value))]
+    ok = bool(maps) and any(isinstance(x, ast.Attribute) and x.attr == "parameters" for x in ast.walk(maps[0].value)) and any(isinstance(x, ast.Call) and call_name(x) == "zip" for x in ast.walk(maps[0].value))
+    rep.check(ok, rule1, "the grounding map pairs formal with actual parameters", f.loc(maps[0]) if maps else f.loc(), construct=norm(maps[0].value) if maps else "no map built from actual_parameters", function=f.qualname)
+    mname = norm(maps[0].targets[0] if isinstance(maps[0], ast.Assign) else maps[0].target) if maps else None
+    adds = [(n, c) for n, c in cfg_nodes_with_call(cfg, "add") if c.args and any(ch[0] == read_set and "<elem>" in ch for ch in du.expanded_chains(c.args[0], n))]
+    ok = bool(adds) and all(any(isinstance(x, ast.Call) and call_name(x) == "substitute" and any(norm(a) == mname for a in x.args) for x in ast.walk(c.args[0])) for _, c in adds)
+    rep.check(ok, rule1, "read fluents are grounded with the instance's actual parameters", f.loc(adds[0][1]) if adds else f.loc(), construct=norm(adds[0][1])[:100] if adds else "no grounded copy of the read set", function=f.qualname)
 
     rule2 = "C27.2 ordering-edges"
-    edges = [c for _, c in cfg_nodes_with_call(cfg, "add_edge")]
-    txt = [tuple(norm(a) for a in c.args) for c in edges]
-    ok = any(a[1] == "action_instance" and "last_modifier" in a[0] for a in txt)
-    rep.check(ok, rule2, "a reader is ordered after the last modifier of the fluent (earlier -> later)", f.loc(edges[0]) if edges else f.loc(), construct=str(txt), detail="" if ok else "read-after-write pairs are not ordered (or the edge is reversed)", function=f.qualname)
-    ok = any(a[1] == "action_instance" and "dependent" in a[0] for a in txt)
-    rep.check(ok, rule2, "a writer is ordered after every earlier instance that read or wrote the fluent", f.loc(edges[-1]) if edges else f.loc(), construct=str(txt), detail="" if ok else "write-after-read / write-after-write pairs are not ordered", function=f.qualname)
-    lm = [a for a in walk_no_nested(f.node) if isinstance(a, ast.Assign) and isinstance(a.targets[0], ast.Subscript) and norm(a.targets[0].value) == "last_modifier"]
-    ok = bool(lm) and all(norm(a.value) == "action_instance" for a in lm)
-    rep.check(ok, rule2, "the writer becomes the last modifier of the ground fluent", f.loc(lm[0]) if lm else f.loc(), construct=norm(lm[0]) if lm else "", function=f.qualname)
-    if lm:
-        key = norm(lm[0].targets[0].slice)
-        kd = [a for a in walk_no_nested(f.node) if isinstance(a, ast.Assign) and norm(a.targets[0]) == key]
-        ok = bool(kd) and "eff.fluent" in norm(kd[0].value) and "assignments" in norm(kd[0].value)
-        rep.check(ok, rule2, "the written fluent is the effect's target grounded with the actual parameters", f.loc(kd[0]) if kd else f.loc(), construct=norm(kd[0].value)[:100] if kd else "", function=f.qualname)
-    regs = [c for _, c in cfg_nodes_with_call(cfg, "append") if "action_instance" in norm(c.args[0]) and "list" in norm(c.func.value)]
-    rep.check(bool(regs), rule2, "every reader is registered for the fluents it reads", f.loc(regs[0]) if regs else f.loc(), construct=norm(regs[0]) if regs else "", function=f.qualname)
-    loops = [l for l in cfg.nodes if l.kind == "for" and norm(l.owner.iter) == "self.actions"]
-    rep.check(bool(loops), rule2, "instances are processed in plan order", f.loc(loops[0].owner) if loops else f.loc(), construct="for action_instance in self.actions", function=f.qualname)
+    # roles are recognised by what the code does with them, not by their names
+    loops = [l for l in cfg.nodes if l.kind == "for" and isinstance(l.owner.target, ast.Name) and any(ch[0] == "self" and ch[-1] in ("actions", "_actions") for ch in du.expanded_chains(l.owner.iter, l))]
+    rep.check(bool(loops), rule2, "instances are processed in plan order", f.loc(loops[0].owner) if loops else f.loc(), construct="for <instance> in self.actions", function=f.qualname)
+    if not loops:
+        raise AnalysisError("anchor vanished: loop over self.actions in _to_partial_order_plan")
+    inst = loops[0].owner.target.id
+
+    def is_inst(e: ast.AST, n) -> bool:
+        return any(ch == (inst,) for ch in du.expanded_chains(e, n))
+
+    # last-modifier maps: D[key] = <instance>
+    lm = [(n, n.ast) for n in cfg.nodes if n.kind == "stmt" and isinstance(n.ast, ast.Assign) and isinstance(n.ast.targets[0], ast.Subscript) and isinstance(n.ast.targets[0].value, ast.Name) and is_inst(n.ast.value, n)]
+    rep.check(bool(lm), rule2, "the writer becomes the last modifier of the ground fluent", f.loc(lm[0][1]) if lm else f.loc(), construct=norm(lm[0][1]) if lm else "no `<map>[<fluent>] = <instance>`", detail="" if lm else "no map records the instance as last modifier of what it writes: read-after-write pairs cannot be ordered", function=f.qualname)
+    lm_names = {a.targets[0].value.id for _, a in lm}
+    for n, a in lm:
+        src = du.sources(a.targets[0].slice, n)
+        ok = any(ch[-1] == "fluent" for ch in src) and any(ch[-1] == "actual_parameters" for ch in src) and any(ch[-1] == "expand_effect()" for ch in src)
+        rep.check(ok, rule2, "the written fluent is the target of an expanded effect grounded with the actual parameters", f.loc(a), construct=norm(a)[:100], detail="" if ok else "the key of the last-modifier map is not derived from eff.fluent of an expanded effect and the instance's actual parameters", function=f.qualname)
+    # reader registries: <dict>.setdefault(k, []) … .append(<instance>)
+    regs = []
+    for n, c in cfg_nodes_with_call(cfg, "append"):
+        if c.args and is_inst(c.args[0], n) and any("setdefault()" in ch for ch in du.expanded_chains(c.func.value, n)):
+            regs.append((n, c, {ch[0] for ch in du.expanded_chains(c.func.value, n) if "setdefault()" in ch}))
+    rep.check(bool(regs), rule2, "every reader is registered for the fluents it reads", f.loc(regs[0][1]) if regs else f.loc(), construct=norm(regs[0][1]) if regs else "no `<registry>.setdefault(f, []).append(<instance>)`", function=f.qualname)
+    reg_names = set().union(*[r[2] for r in regs]) if regs else set()
+    edges = [(n, c) for n, c in cfg_nodes_with_call(cfg, "add_edge") if len(c.args) == 2]
+    txt = [tuple(norm(a) for a in c.args) for _, c in edges]
+    after_lm = [c for n, c in edges if is_inst(c.args[1], n) and any(ch[0] in lm_names for ch in du.expanded_chains(c.args[0], n))]
+    rep.check(bool(after_lm), rule2, "a reader is ordered after the last modifier of the fluent (earlier -> later)", f.loc(after_lm[0]) if after_lm else f.loc(), construct=str(txt), detail="" if after_lm else "read-after-write pairs are not ordered (or the edge is reversed)", function=f.qualname)
+    after_readers = [c for n, c in edges if is_inst(c.args[1], n) and any(ch[0] in reg_names for ch in du.expanded_chains(c.args[0], n))]
+    rep.check(bool(after_readers), rule2, "a writer is ordered after every earlier instance that read or wrote the fluent", f.loc(after_readers[0]) if after_readers else f.loc(), construct=str(txt), detail="" if after_readers else "write-after-read / write-after-write pairs are not ordered", function=f.qualname)
+    rev = [c for n, c in edges if is_inst(c.args[0], n)]
+    rep.check(not rev, rule2, "no edge leaves the instance being processed (edges point from earlier to later instances)", f.loc(rev[0]) if rev else f.loc(), construct=str(txt), detail="" if not rev else "an ordering edge points from the later instance to an earlier one", function=f.qualname)
     # simulated effects are outside the property's grammar
-    if not any(isinstance(n, ast.Attribute) and n.attr == "simulated_effect" for n in walk_no_nested(f.node)):
-        rep.candidate("C27 simulated effects", f.loc(), "simulated_effect is never read", "fluents written by simulated effects are not part of the write set (outside the property's grammar)")
